@@ -89,3 +89,76 @@ func VerifC13WeightListCycle() {
 	vapi.Check(len(l) == total, "weighted cycle length")
 	vapi.Reach("c13-weightlist-cycle")
 }
+
+// c13Formula: the property's cycle formula over symbolic weights.
+func c13Formula(w, wmax, wmin int32) (want int, r int32) {
+	r = wmax / wmin
+	if r < 10 {
+		r = 10
+	}
+	if r > 100 {
+		r = 100
+	}
+	want = int(w * r / wmax)
+	if want < 1 {
+		want = 1
+	}
+	return
+}
+
+// VerifC13WeightListRatio: two endpoints with ANY static weights in 1..255 in either order
+// (so every ratio W_max/W_min from 1 to 255, both sides of the R clamps 10 and 100): the cycle
+// contains each endpoint exactly max(1, floor(W_i*R/W_max)) times.
+func VerifC13WeightListRatio() {
+	w0, w1 := int32(vapi.Uint8("w0")), int32(vapi.Uint8("w1"))
+	vapi.Assume(vapi.And(w0 >= 1, w1 >= 1))
+	eps := []endpoint.Endpoint{
+		{Host: c13Hosts[0], Port: 1, Weight: w0, WeightType: 1},
+		{Host: c13Hosts[1], Port: 1, Weight: w1, WeightType: 1},
+	}
+	wmax, wmin := w0, w1
+	if w1 > w0 {
+		wmax, wmin = w1, w0
+	}
+	l := BuildStaticWeightList(eps)
+	want0, _ := c13Formula(w0, wmax, wmin)
+	want1, _ := c13Formula(w1, wmax, wmin)
+	got0, got1 := 0, 0
+	for _, idx := range l {
+		vapi.Check(vapi.And(idx >= 0, idx < 2), "weight list index in range")
+		if idx == 0 {
+			got0++
+		} else {
+			got1++
+		}
+	}
+	vapi.Check(got0 == want0, "weighted cycle: endpoint count proportional to weight")
+	vapi.Check(got1 == want1, "weighted cycle: endpoint count proportional to weight")
+	vapi.Reach("c13-weightlist-ratio")
+}
+
+// VerifC13WeightListRatio3: three endpoints with any static weights in 1..15 in any order.
+func VerifC13WeightListRatio3() {
+	var w [3]int32
+	eps := make([]endpoint.Endpoint, 3)
+	wmax, wmin := int32(0), int32(1000)
+	for i := range eps {
+		x := vapi.Uint8("w")
+		vapi.Assume(vapi.And(x >= 1, x <= 15))
+		w[i] = int32(x)
+		eps[i] = endpoint.Endpoint{Host: c13Hosts[i], Port: 1, Weight: w[i], WeightType: 1}
+		wmax = int32(vapi.Ite(w[i] > wmax, uint64(w[i]), uint64(wmax)))
+		wmin = int32(vapi.Ite(w[i] < wmin, uint64(w[i]), uint64(wmin)))
+	}
+	l := BuildStaticWeightList(eps)
+	var got [3]int
+	for _, idx := range l {
+		vapi.Check(vapi.And(idx >= 0, idx < 3), "weight list index in range")
+		got[idx]++
+	}
+	for i := range eps {
+		want, _ := c13Formula(w[i], wmax, wmin)
+		vapi.Check(got[i] == want, "weighted cycle: endpoint count proportional to weight")
+	}
+	vapi.Reach("c13-weightlist-ratio3")
+}
